@@ -39,9 +39,9 @@ def base_blob(seed: int, h: str, mode: str, in_env: bool, long_pt: bool = False)
     return Base(f"{h}/{mode}/{'env' if in_env else 'trail'}{'/long' if long_pt else ''}", rk, blob, pt)
 
 
-def bases(seed: int, tier: str) -> t.List[Base]:
+def bases(seed: int, tier: str, with_dh: bool = False) -> t.List[Base]:
     if tier == "quick":
-        combos = [("SHA512", "nonce", True), ("SHA512", "nonce", False), ("SHA256", "ECDH_P256", True), ("SHA256", "ECDH_P256", False)]
+        combos = [("SHA512", "nonce", True), ("SHA512", "nonce", False), ("SHA256", "ECDH_P256", True), ("SHA256", "ECDH_P256", False)] + ([("SHA1", "DH", True)] if with_dh else [])
     else:
         combos = [(h, m, e) for h in HASHES for m in MODES for e in (True, False)]
     out = [base_blob(seed, h, m, e) for h, m, e in combos]
@@ -259,6 +259,23 @@ def keyid_mutations(blob: bytes) -> t.Iterator[t.Tuple[t.List[t.Any], bytes]]:
         yield ["kid", "ki.empty"], with_ki(b"")
         yield ["kid", "ki.short"], with_ki(ki[:9])
         yield ["kid", "ki.as-nonce"], with_keyid(blob, put(8, kid.flags & ~1))
+        # self-consistent rewrites of the nested public-key structure with another key_length (all lengths agree with each other)
+        if ki[:4] == b"DHPB":
+            kl0, p0, g0, y0 = gkdi.unpack_dh_key(ki)
+            for kl in (1, 2, 128, 255, 257, 512):
+                m = 256**kl
+                for yv in (y0 % m, 0, 1, 2, (p0 - 1) % m, m - 1):
+                    for pv in (p0 % m, m - 1, 0, 1):
+                        yield ["kid", "ki.dh-rewrite", kl, str(pv)[:12], str(yv)[:12]], with_ki(gkdi.pack_dh_key(kl, pv, g0 % m, yv))
+        else:
+            curve, kl0, x0, y0 = gkdi.unpack_ec_key(ki)
+            for kl in (1, 16, kl0 - 1, kl0 + 1, 48 if kl0 != 48 else 32, 66):
+                m = 256**kl
+                yield ["kid", "ki.ec-rewrite", kl], with_ki(gkdi.pack_ec_key(curve, kl, x0 % m, y0 % m))
+                yield ["kid", "ki.ec-rewrite-zero", kl], with_ki(gkdi.pack_ec_key(curve, kl, 0, 0))
+            for other in ("P256", "P384", "P521"):
+                if other != curve:
+                    yield ["kid", "ki.ec-other-curve", other], with_ki(gkdi.pack_ec_key(other, kl0, x0, y0))
     else:
         yield ["kid", "nonce-as-pubkey"], with_keyid(blob, put(8, kid.flags | 1))
 
